@@ -115,6 +115,7 @@ func runC09(p *core.Program, r *core.Report) {
 	r.Rule("C09.enumer", "Keys/Values/Entries construct their enumerator with the matching discriminator", 30)
 	r.Rule("C09.sort", "Sort: collect, sort.Sort, clear, re-insert all at the tail", 12)
 	r.Rule("C09.key-domain", "operations of one collection agree on which keys exist: no lookup/removal rejects a key the insertion path stores", 1)
+	r.Rule("C09.ctor", "every constructor leaves the collection with at least one bucket, whatever initial capacity it is given (lookups take the hash modulo the table length)", 13)
 	r.Rule("C09.index", "bucket indices are non-negative (unsigned modulo or masked hash)", 40)
 	modes := hmapModes(p)
 	names := append([]string{}, c09Types...)
@@ -137,6 +138,7 @@ func runC09(p *core.Program, r *core.Report) {
 		h.checkSort()
 		h.checkIndexSign()
 		h.checkKeyDomain()
+		h.checkCtor()
 	}
 }
 
@@ -152,6 +154,7 @@ func runC12(p *core.Program, r *core.Report) {
 	r.Rule("C12.walks", "whole-table walks visit buckets 0..len-1 exactly", 3)
 	r.Rule("C12.enumer", "enumerator constructors carry the matching discriminator and start index", 3)
 	r.Rule("C12.key-domain", "operations of one collection agree on which keys exist: no lookup/removal rejects a key the insertion path stores", 1)
+	r.Rule("C12.ctor", "every constructor leaves the collection with at least one bucket, whatever initial capacity it is given (lookups take the hash modulo the table length)", 4)
 	r.Rule("C12.index", "bucket indices are non-negative (unsigned modulo or masked hash)", 8)
 	r.Rule("C12.serial", "IntIntMap.ToBytes ~ ToObject agree on the layout", 1)
 	modes := hmapModes(p)
@@ -170,6 +173,7 @@ func runC12(p *core.Program, r *core.Report) {
 		h.checkEnumer()
 		h.checkIndexSign()
 		h.checkKeyDomain()
+		h.checkCtor()
 	}
 	c12Serial(p, r)
 	c12EnumWalk(p, r)
